@@ -24,13 +24,14 @@
 (*                                                                          *)
 (* Observed outline graph og (all ids are object numbers, 0 = key absent):  *)
 (*   [root, rootrec : [first, last, present], max_id, oldids : Seq(Nat),    *)
-(*    changed : Seq(Nat),                                                   *)
+(*    changed : Seq(Nat), later : Seq(Nat),                                 *)
 (*    items : Seq([id, parent, first, last, next, prev, title : Seq(byte),  *)
 (*                 dk : STRING, aid, dest])]                                *)
 (* items = every object created by build_outline that has a /Title; dk says *)
 (* how the destination is given ("A:GoTo" action, "Dest" array), aid is the *)
 (* id of the action object (0 if direct), dest the object number the        *)
-(* destination array points to.                                             *)
+(* destination array points to.  later = the ids the document's allocator  *)
+(* (add_object / new_object_id) handed out after build_outline returned.    *)
 (***************************************************************************)
 EXTENDS Naturals, Sequences, FiniteSets, SequencesExt, FiniteSetsExt, TLC
 
@@ -138,7 +139,10 @@ FreshDisjoint(adds, og) ==
 
 FreshMax(adds, og) == og.max_id >= Max(NewIds(adds, og))     \* later allocations cannot collide
 
-Fresh(adds, og) == FreshDisjoint(adds, og) /\ FreshMax(adds, og)
+\* the ids stay reserved: no allocation made after build_outline returns one of them
+FreshReserved(adds, og) == SeqSet(og.later) \cap NewIds(adds, og) = {}
+
+Fresh(adds, og) == FreshDisjoint(adds, og) /\ FreshMax(adds, og) /\ FreshReserved(adds, og)
 
 \* sibling list `list` hangs under the node whose id is pid and whose First/Last are f/l
 SiblingsOk(it, list) ==
@@ -190,6 +194,7 @@ Judge(adds, np, pageids, adjusted, og, tocs) ==
     IN IF ~Identified(adds, og) THEN "carries.title"
        ELSE IF ~FreshDisjoint(adds, og) THEN "fresh.overlap"
        ELSE IF ~FreshMax(adds, og) THEN "fresh.maxid"
+       ELSE IF ~FreshReserved(adds, og) THEN "fresh.reserved"
        ELSE IF ~LinksParent(adds, og) THEN "links.parent"
        ELSE IF ~LinksSiblings(adds, og) THEN "links.siblings"
        ELSE IF ~LinksRoot(adds, og) THEN "links.root-ends"
@@ -267,6 +272,14 @@ ImplBuild(s, maxid) ==
              rootobj == [ItemObj(0, <<>>, 0, 0) EXCEPT !.kind = "root", !.first = r.first, !.last = r.last, !.count = r.count]
          IN [root |-> rid, maxid |-> r.maxid, objs |-> (rid :> rootobj) @@ r.proc]
 
+\* Document::add_object / new_object_id after the outline was built: the allocator hands out max_id + 1;
+\* add_object stores an object there (whatever was there is overwritten).  d = [root, maxid, objs, ...]
+OtherObj == [ItemObj(0, <<>>, 0, 0) EXCEPT !.kind = "other"]
+ImplAlloc(d, store) ==
+    LET id == d.maxid + 1
+    IN [d EXCEPT !.maxid = id, !.later = Append(@, id),
+                 !.objs = IF store THEN (id :> OtherObj) @@ d.objs ELSE d.objs]
+
 \* get_outlines + setup_outline_page_ids flattened: the sibling loop starting at node id, entries
 \* <<level, title bytes, destination page>>; fuel bounds the walk on ill-formed graphs.
 RECURSIVE WalkSiblings(_, _, _, _)
@@ -307,7 +320,7 @@ ImplToc(objs, root, np) ==
          IN [i \in 1..Len(kept) |-> <<kept[i][1], ImplDecodeTitle(kept[i][2]), kept[i][3]>>]
 
 \* the outline graph the harness would observe for the impl-shaped result (page p is object pageids[p])
-ImplOg(b, base, pageids) ==
+ImplOg(b, base, pageids, later) ==
     LET ids   == {i \in DOMAIN b.objs : b.objs[i].kind = "item"}
         order == SetToSortSeq(ids, LAMBDA x, y : x < y)
         obj(i) == b.objs[i]
@@ -318,6 +331,7 @@ ImplOg(b, base, pageids) ==
         max_id |-> b.maxid,
         oldids |-> [i \in 1..base |-> i],
         changed |-> <<>>,
+        later |-> later,
         items |-> [j \in 1..Len(order) |->
                      [id |-> order[j], parent |-> obj(order[j]).parent, first |-> obj(order[j]).first,
                       last |-> obj(order[j]).last, next |-> obj(order[j]).next, prev |-> obj(order[j]).prev,
